@@ -30,6 +30,7 @@ type Wire struct {
 	cond  *sync.Cond
 	gated bool
 	cut   bool
+	hole  bool // the peer vanished silently: writes are swallowed, nothing arrives, no end of stream yet
 	c2s   dirq
 	s2c   dirq
 	cli   *End
@@ -124,7 +125,7 @@ func (e *End) WriteMessage(b []byte) error {
 		return io.EOF
 	}
 	ok := 1
-	if w.cut {
+	if w.cut || w.hole {
 		ok = 0 // lost
 	} else {
 		f := make([]byte, len(b))
@@ -145,7 +146,7 @@ func (e *End) WriteMessage(b []byte) error {
 	}
 	w.cond.Broadcast()
 	w.mu.Unlock()
-	if ok == 0 && !e.client {
+	if ok == 0 && !e.client && !w.hole {
 		return io.EOF // the server sees a closed socket
 	}
 	return nil
@@ -182,6 +183,14 @@ func (e *End) Close() error {
 }
 
 // ---- driver operations -----------------------------------------------------
+
+// Blackhole: the peer vanishes without a trace (no FIN): nothing is delivered any more, writes are
+// swallowed; the end of the stream is only seen once Cut is called.
+func (w *Wire) Blackhole() {
+	w.mu.Lock()
+	w.hole = true
+	w.mu.Unlock()
+}
 
 // Cut: the network/peer cuts the connection. Later writes are lost, and so are
 // up to lossC2S / lossS2C of the newest frames still in flight (gated mode).
